@@ -151,9 +151,25 @@ func (h *harness) crashCase(img crashImage, k uint64, tail int, seed int, final 
 	want := func() int { return newest }
 	validHeader := k >= 8
 	desc := fmt.Sprintf("crash image at step %d (%d bytes) truncated at %d with tail %s", img.step, len(img.data), k, []string{"absent", "zero filled", "garbage"}[tail])
-	// 1. open must refuse (or open a cleanly closed earlier file to that close's contents)
 	var db *db19.Database
 	var err error
+	// Two ways lead to Repair: the server finds that it cannot open the database (open,
+	// repair, open), or the operator runs the repair command (quick check, repair; the
+	// database is opened by the next start). A failed open truncates trailing zeros, so the
+	// second way shows Repair a different file.
+	if seed%3 == 2 && validHeader {
+		var cerr error
+		if res := tryFatal(func() { cerr = db19.CheckDatabase(file, false) }); res != "" {
+			h.fail("C05/crash", "C05/crash/check-panicked", "%s: CheckDatabase raised %s", desc, res)
+			return false
+		}
+		if cerr != nil {
+			h.ri.Count("crash.repair-command-flow", 1)
+			return h.crashRepair(file, desc, cerr, haveState, want, final)
+		}
+		// "database ok": nothing is repaired, the server start follows
+	}
+	// 1. open must refuse (or open a cleanly closed earlier file to that close's contents)
 	res := tryFatal(func() { db, err = db19.OpenDatabase(file) })
 	if res == fatalExit && !validHeader {
 		// the file does not even have the database header: the process refuses it with
@@ -197,6 +213,13 @@ func (h *harness) crashCase(img crashImage, k uint64, tail int, seed int, final 
 		return false
 	}
 	_ = cerr
+	return h.crashRepair(file, desc, err, haveState, want, final)
+}
+
+// crashRepair: Repair must return; with a complete state record it must succeed and leave a
+// database that opens, passes the full check and holds that state; without one it must fail.
+func (h *harness) crashRepair(file, desc string, err error, haveState bool, want func() int, final []byte) bool {
+	var db *db19.Database
 	// 3. repair
 	var rmsg string
 	var rerr error
@@ -217,7 +240,7 @@ func (h *harness) crashCase(img crashImage, k uint64, tail int, seed int, final 
 		h.fail("C05/crash", "C05/crash/repair-failed", "%s: state %d (offset %d) is completely persisted below the truncation point but Repair failed: %v", desc, j, h.states[j].off, rerr)
 		return false
 	}
-	res = try(func() { db, err = db19.OpenDatabase(file) })
+	res := try(func() { db, err = db19.OpenDatabase(file) })
 	if res != "" || err != nil {
 		h.fail("C05/crash", "C05/crash/open-after-repair", "%s: after Repair (%s) the database does not open: %v %v", desc, rmsg, res, err)
 		return false
